@@ -42,7 +42,8 @@ void LinSendError2::write(AbstractFile & os) {
     os.write(reinterpret_cast<char *>(&reservedLinSendError2), sizeof(reservedLinSendError2));
     os.write(reinterpret_cast<char *>(&exactHeaderBaudrate), sizeof(exactHeaderBaudrate));
     os.write(reinterpret_cast<char *>(&earlyStopbitOffset), sizeof(earlyStopbitOffset));
-    os.write(reinterpret_cast<char *>(&reservedLinSendError3), sizeof(reservedLinSendError3));
+    if (reservedLinSendError3_present)
+        os.write(reinterpret_cast<char *>(&reservedLinSendError3), sizeof(reservedLinSendError3));
 }
 
 uint32_t LinSendError2::calculateObjectSize() const {
